@@ -208,6 +208,12 @@ SPECIAL = [
                                {"type": "record", "name": "Address", "namespace": "geo", "fields": [{"name": "city", "type": "string", "default": "nowhere"}]},
                                {"type": "enum", "name": "x.y.Kind", "symbols": ["A"]}, {"type": "enum", "name": "y.Kind", "symbols": ["B", "A"]}]},
         {"name": "v", "type": ["geo.Address", "shop.geo.Address", "null"]}]}),
+    ("object-form-primitives-with-defaults", {"type": "record", "name": "OF", "fields": [
+        {"name": "id", "type": "int"}, {"name": "n", "type": {"type": "int"}, "default": 5}, {"name": "s", "type": {"type": "string", "note": "x"}, "default": "dflt"},
+        {"name": "b", "type": {"type": "boolean"}, "default": False}, {"name": "d", "type": {"type": "double"}, "default": 0.5}, {"name": "by", "type": {"type": "bytes"}, "default": "\u00ff"}]}),
+    ("alias-equal-to-sibling-name", {"type": "record", "name": "Parcel", "fields": [
+        {"name": "id", "type": "string"}, {"name": "size", "type": "int", "default": 1}, {"name": "weight", "type": "int", "default": 0, "aliases": ["size", "mass"]},
+        {"name": "mass", "type": "int", "default": 9}]}),
     ("null-branch-in-object-form", {"type": "record", "name": "ON", "fields": [
         {"name": "u", "type": [{"type": "null"}, "string"]}, {"name": "v", "type": ["int", {"type": "null", "note": "x"}]},
         {"name": "w", "type": {"type": "array", "items": [{"type": "null"}, {"type": "record", "name": "W", "fields": [{"name": "x", "type": "int"}]}]}}]}),
@@ -262,6 +268,10 @@ def special_data(label, node, defs):
     if label == "suffix-full-names-in-union":
         return [{"u": ("geo.Address", {"city": "c"}), "v": ("shop.geo.Address", {"street": "s"})}, {"u": ("shop.geo.Address", {"street": "s"}), "v": ("geo.Address", {"city": "c"})},
                 {"u": ("y.Kind", "A"), "v": None}, {"u": ("x.y.Kind", "A"), "v": ("geo.Address", {"city": ""})}, {"u": None, "v": ("geo.Address", {})}]
+    if label == "object-form-primitives-with-defaults":
+        return [{"id": 1, "n": 2, "s": "x", "b": True, "d": 1.5, "by": b"z"}]
+    if label == "alias-equal-to-sibling-name":
+        return [{"id": "p1", "size": 7, "weight": 3, "mass": 4}]
     if label == "null-branch-in-object-form":
         return [{"u": None, "v": None, "w": [None, {"x": 1}]}, {"u": "s", "v": 5, "w": []}]
     if label in ("deep-arrays", "deep-records", "deep-record-array-record"):
